@@ -1,4 +1,5 @@
 import GModel.Ops
+import GModel.Ops2
 namespace G
 /-- run one protocol line -/
 def runLine (tables : List (List (String × Rd String))) (line : String) : String :=
@@ -12,5 +13,5 @@ def runLine (tables : List (List (String × Rd String))) (line : String) : Strin
       | some (out, []) => out
       | _ => "bad-op"
 
-def allTables : List (List (String × Rd String)) := [Ops.table]
+def allTables : List (List (String × Rd String)) := [Ops.table, Ops2.table]
 end G
